@@ -672,11 +672,15 @@ def soak(chk, prop, conns=18):
     pollers with 0, 1 and 3 io threads, with and without EINTR showers.  Nothing is scripted, so a failure is reported
     with the command line that produced it (seeded, but scheduling is the OS's).  Returns (ok, failure lines of `prop`,
     list of summary dicts)."""
-    exe = vlib.build_driver("Conn_soak", ["Conn_soak.cc"], variant="asan")
+    exe = vlib.build_driver("Conn_soak", ["Conn_soak.cc"], variant="asan", wrap=["write"])
     mine, summaries = [], []
-    for (poller, nthreads, eintr) in SOAK_CONFIGS:
+    # C13 additionally runs the exact mode: echo connections only, write() logged, callback counts and values exact
+    configs = [(p_, n_, e_, "") for (p_, n_, e_) in SOAK_CONFIGS]
+    if prop == "C13":
+        configs += [(p_, n_, 0, "c13") for p_ in ("epoll", "poll") for n_ in (0, 1, 3)]
+    for (poller, nthreads, eintr, mode) in configs:
         seed = chk.rng.randrange(1, 1 << 30)
-        cmd = [exe, str(nthreads), str(conns), str(seed), str(eintr)]
+        cmd = [exe, str(nthreads), str(conns), str(seed), str(eintr)] + ([mode] if mode else [])
         env = {"MUDUO_USE_POLL": "1"} if poller == "poll" else {}
         rc, out = vlib.sh(cmd, env=env, timeout=300)
         chk.cov["evaluations"] += 1
@@ -694,6 +698,11 @@ def soak(chk, prop, conns=18):
         if summ:
             d = dict(kv.split("=", 1) for kv in summ.split()[1:])
             d["eintr"] = str(eintr)
+            if mode:
+                d["mode"] = mode
+                ex = next((l for l in lines if l.startswith("exact ")), None)
+                if ex:
+                    d.update(dict(kv.split("=", 1) for kv in ex.split()[1:]))
             d["result"] = res or "none"
             summaries.append(d)
     return (not mine), mine, summaries
